@@ -42,12 +42,12 @@ def main():
         text = item["text"]
         if text not in evs:
             evs[text] = sut.compile_text(text)
-        prepared.append((evs[text], M.dec_inputs(item["inputs"])))
+        prepared.append((evs[text], M.dec_inputs(item["inputs"]), sut.call_positional if item.get("positional") else sut.call))
     raw = [None] * len(batch)
     for pos in order:
-        res, env = prepared[pos]
-        raw[pos] = sut.call(res[1], env) if res[0] == "ok" else None
-    for pos, (res, env) in enumerate(prepared):
+        res, env, fn = prepared[pos]
+        raw[pos] = fn(res[1], env) if res[0] == "ok" else None
+    for pos, (res, env, fn) in enumerate(prepared):
         if res[0] != "ok":
             out[pos] = ["compile-error", res[1]]
             continue
